@@ -85,7 +85,7 @@ class Group:
 def hook_k5_table(scratch, env):
     """Regenerate the list of defined error kinds from the snapshot's errorcodes.rs."""
     src = open(os.path.join(scratch, "src/errorcodes.rs")).read()
-    m = re.search(r"pub enum ErrorKind \{(.*?)\n\}", src, re.S)
+    m = re.search(r"^pub enum ErrorKind \{\n(.*?)\n\}", src, re.S | re.M)
     if not m:
         raise Undecided("lost anchor: enum ErrorKind not found in src/errorcodes.rs")
     codes = [int(c) for c in re.findall(r"^\s+[A-Z][A-Z0-9_]* = (\d+),\s*$", m.group(1), re.M)]
@@ -227,7 +227,7 @@ def run_harnesses(scratch, groups_harnesses, jobs=8, timeout=3000, label="kani")
         results[hid] = {
             "group": g.name, "harness": h, "status": r.get("status"), "duration_s": r.get("duration_ms", 0) / 1000.0,
             "checks": n_assert, "failed": failed, "tool": tool, "covers_ok": covers_ok,
-            "covers_unsat": covers_bad, "solver_s": stats.get(hid, {}).get("runtime_decision_procedure_s"),
+            "covers_unsat": covers_bad, "solver_s": (stats.get(hid) or {}).get("runtime_decision_procedure_s"),
             "meta": g.harnesses[h],
         }
     missing = [h for h in full if h not in results]
